@@ -1,4 +1,4 @@
-\* C01 (ii): every composition of short messages, receiver interleaved with the sender
+\* C01 (ii) thorough: every composition of messages of 0..6 bytes (zero-length writes included), receiver interleaved with the sender
 SPECIFICATION Spec
 CONSTANTS
   Max = 1048576
